@@ -154,6 +154,13 @@ Definition run (req : sexp) : sexp :=
               Some (SList [s_bool (outcomes_ok v l); s_bool (never_raises l); s_bool (serial_ok l);
                            s_bool (timestamps_ok l); s_bool (percall_ok l); s_bool (autoreg_ok l)]))
   | SList [SNum 9; SBytes c] => s_bool (status_200 (Some c))
+  (* status datasets / management models: the k-th descriptor of nfd_models (order of Generated/Schemas.v) *)
+  | SList [SNum 10; k; vs] =>
+      or_bad (odo i <- as_nat k ;; odo fs <- nth_error nfd_models i ;; odo v <- as_values vs ;;
+              Some (s_res SBytes (dataset_wire fs v)))
+  | SList [SNum 11; k; SBytes w] =>
+      or_bad (odo i <- as_nat k ;; odo fs <- nth_error nfd_models i ;; Some (s_res s_values (dataset_parse fs w)))
+  | SList [SNum 12] => SNum (N.of_nat (length nfd_models))
   | _ => s_bad_request
   end.
 
